@@ -1,0 +1,10 @@
+//go:build verif
+
+// Contracts for the gvc verifier (/verif). This file contains comments only:
+// with the "verif" build tag off it is not compiled, with it on it adds no code.
+
+package datanode
+
+// The values of a leaf or leaf-list node, in the order given: a heap-independent view of their number.
+//@ func (DataNode).YangDataValuesNoSorting
+//@   ensures len(result) == dn_nvalues(self)
